@@ -4,6 +4,7 @@ package c16
 
 import (
 	"fmt"
+	"sort"
 	"strings"
 	"testing"
 	"time"
@@ -119,15 +120,71 @@ func threadsInWindow(r *sched.Result) int {
 	return len(in)
 }
 
+// schedCase builds one execution of a scenario: a fresh fixture, the controlled operations and the
+// judge (the oracle of DESIGN §4 C16 for schedules). observe decides whether this execution is
+// observed in real time (~0.8 s) or only executed; judged is called for every observed one.
+func schedCase(t *testing.T, test string, si, init int, observe func() bool, judged func(r *sched.Result, threadsIn int)) ([]sched.Op, func(*sched.Result)) {
+	sc := scenarios[si]
+	fx := newFixture(t, schedTimeout, 1, false, false)
+	if init == 0 {
+		fx.hm.StopHeartbeat()
+	}
+	var ops []sched.Op
+	for ti, kind := range sc.Threads {
+		name := fmt.Sprintf("T%d.%s", ti+1, kind)
+		if kind == "start" {
+			ops = append(ops, sched.Op{Name: name, Fn: func() { _ = fx.hm.StartHeartbeat() }})
+		} else {
+			ops = append(ops, sched.Op{Name: name, Fn: fx.hm.StopHeartbeat})
+		}
+	}
+	return ops, func(r *sched.Result) {
+		defer fx.close()
+		if !observe() {
+			fx.leaked = true // nobody looked: do not wait for the goroutines either
+			return
+		}
+		defer func() {
+			if t.Failed() {
+				world.SaveReplay(test+".json", sched.ReplaySpec{Test: test, Params: map[string]int{"scenario": si, "running": init}, Choices: r.Choices, Trace: r.Trace})
+			}
+		}()
+		in := threadsInWindow(r)
+		nt := in >= 2
+		judged(r, in)
+		world.Record(world.Hash("sched", sc.Name, init, r.Choices), nt, "sched/"+sc.Name, fmt.Sprintf("sched/threads-in-window/%d", in))
+		if nt && world.WantSample() {
+			world.Sample(map[string]any{"kind": "schedule", "scenario": sc.Name, "runningAtStart": init == 1, "trace": r.Trace})
+		}
+		how := fmt.Sprintf("%s (heartbeat %s at the start), schedule [%s]", sc.Name, map[int]string{0: "stopped", 1: "running"}[init], r)
+		// a known finding abandons this schedule only; the enumeration goes on
+		world.Guard(func() {
+			var names []string
+			for name := range r.Panics {
+				names = append(names, name)
+			}
+			sort.Strings(names)
+			for _, name := range names {
+				failC(t, "C16/concurrent/"+panicShape(r.Panics[name]), "%s: %s panicked: %s", how, name, r.Panics[name])
+			}
+			if r.Deadlock {
+				failC(t, "C16/concurrent/deadlock", "%s: not all calls returned", how)
+			}
+			judgeAfterwards(t, fx, how)
+		})
+	}
+}
+
 // TestHeartbeatInterleavings enumerates every interleaving of concurrent StartHeartbeat /
 // StopHeartbeat calls over the yield points between the running check and the close, and between
-// the stop and the creation of the new channel.
+// the stop and the creation of the new channel. Every shard enumerates all schedules (cheap) and
+// observes its share of them.
 func TestHeartbeatInterleavings(t *testing.T) {
-	replay := sched.LoadReplay("TestHeartbeatInterleavings")
+	const test = "TestHeartbeatInterleavings"
+	replay := sched.LoadReplay(test)
 	shard, shards := world.EnvInt("VERIF_SHARD", 0), world.EnvInt("VERIF_SHARDS", 1)
-	reached := 0
+	reached, seq := 0, 0
 	exhaustive := true
-	seq := 0 // schedules executed so far; every shard enumerates all of them and judges its share
 	for si, sc := range scenarios {
 		for init := 1; init >= 0; init-- { // 1: the heartbeat is running when the calls start
 			si, sc, init := si, sc, init
@@ -137,59 +194,18 @@ func TestHeartbeatInterleavings(t *testing.T) {
 			if replay != nil && (replay.Params["scenario"] != si || replay.Params["running"] != init) {
 				continue
 			}
-			build := func() ([]sched.Op, func(*sched.Result)) {
-				fx := newFixture(t, schedTimeout, 1, false, false)
-				if init == 0 {
-					fx.hm.StopHeartbeat()
-				}
-				var ops []sched.Op
-				for ti, kind := range sc.Threads {
-					name := fmt.Sprintf("T%d.%s", ti+1, kind)
-					if kind == "start" {
-						ops = append(ops, sched.Op{Name: name, Fn: func() { _ = fx.hm.StartHeartbeat() }})
-					} else {
-						ops = append(ops, sched.Op{Name: name, Fn: fx.hm.StopHeartbeat})
-					}
-				}
-				return ops, func(r *sched.Result) {
-					defer fx.close()
-					seq++
-					if replay == nil && seq%shards != shard {
-						// another shard observes this schedule (the observation takes ~0.8 s of real time)
-						fx.leaked = true
-						return
-					}
-					defer func() {
-						if t.Failed() {
-							world.SaveReplay("TestHeartbeatInterleavings.json", sched.ReplaySpec{Test: "TestHeartbeatInterleavings",
-								Params: map[string]int{"scenario": si, "running": init}, Choices: r.Choices, Trace: r.Trace})
-						}
-					}()
-					if t.Failed() {
-						return
-					}
-					in := threadsInWindow(r)
-					nt := in >= 2
-					if in > 0 {
-						reached++
-					}
-					world.Record(world.Hash("sched", sc.Name, init, r.Choices), nt, "sched/"+sc.Name, fmt.Sprintf("sched/threads-in-window/%d", in))
-					if nt && world.WantSample() {
-						world.Sample(map[string]any{"kind": "schedule", "scenario": sc.Name, "runningAtStart": init == 1, "trace": r.Trace})
-					}
-					how := fmt.Sprintf("%s (heartbeat %s at the start), schedule [%s]", sc.Name, map[int]string{0: "stopped", 1: "running"}[init], r)
-					// a known finding abandons this schedule only; the enumeration goes on
-					world.Guard(func() {
-						for name, p := range r.Panics {
-							failC(t, "C16/concurrent/"+panicShape(p), "%s: %s panicked: %s", how, name, p)
-						}
-						if r.Deadlock {
-							failC(t, "C16/concurrent/deadlock", "%s: not all calls returned", how)
-						}
-						judgeAfterwards(t, fx, how)
-					})
-				}
+			observe := func() bool {
+				seq++
+				return replay != nil || seq%shards == shard
 			}
+			judged := func(r *sched.Result, in int) {
+				if in > 0 {
+					reached++
+				}
+				world.AddExtra("schedules", 1)
+				world.AddExtra("schedules/"+sc.Name, 1)
+			}
+			build := func() ([]sched.Op, func(*sched.Result)) { return schedCase(t, test, si, init, observe, judged) }
 			if replay != nil {
 				world.Guard(func() {
 					ops, judge := build()
@@ -204,16 +220,44 @@ func TestHeartbeatInterleavings(t *testing.T) {
 				exhaustive = false
 				world.Label("sched/capped/" + sc.Name)
 			}
-			world.AddExtra("schedules", int64(n))
-			world.AddExtra("schedules/"+sc.Name, int64(n))
-			if t.Failed() {
-				return
-			}
 		}
 	}
 	world.SetExtra("schedule_enumeration_exhaustive", exhaustive)
 	world.SetExtra("yield_point_reached", reached > 0)
-	if reached == 0 {
+	if reached == 0 && seq >= shards {
 		t.Logf("yield points %v never reached: only the free-running hammer explores these windows", hbPoints)
+	}
+}
+
+// TestScheduleRegressions replays the schedules that exposed F18 (DESIGN §5) on the pinned tree.
+func TestScheduleRegressions(t *testing.T) {
+	const test = "TestScheduleRegressions"
+	cases := []struct {
+		name     string
+		scenario int
+		running  int
+		choices  []int
+	}{
+		// both Stop calls pass the running check, then both close the channel
+		{"Stop||Stop: check, check, close, close", 0, 1, []int{0, 1, 0}},
+		// Start's inner stop and the Stop call both pass the check; Stop closes before Start made the new channel
+		{"Start||Stop: check, check, close, close", 1, 1, []int{0, 1, 0, 1}},
+		// both Starts are past their stop; each creates a channel and a stream, the first channel is lost
+		{"Start||Start: stop, stop, make+go, make+go", 2, 1, []int{0, 0, 1, 0}},
+		// the same from a stopped heartbeat
+		{"Start||Start from stopped: both past the stop", 2, 0, []int{0, 1, 0}},
+	}
+	replay := sched.LoadReplay(test)
+	for _, c := range cases {
+		if replay != nil {
+			c.scenario, c.running, c.choices = replay.Params["scenario"], replay.Params["running"], replay.Choices
+		}
+		world.Guard(func() {
+			ops, judge := schedCase(t, test, c.scenario, c.running, func() bool { return true }, func(*sched.Result, int) {})
+			judge(sched.RunChoices(ops, hbPoints, c.choices))
+		})
+		if replay != nil {
+			break
+		}
 	}
 }
